@@ -101,6 +101,7 @@ C("Bucket._set", cls="Bucket",
                       " and exists(0, len(self._keys), lambda p: self._keys[p] == key and result[1] == self._values[p]))",
       "none_only_if_present": "implies(result[0] is None, " + PRESENT + ")",
       "none_if_present_ifunset": "implies(" + PRESENT + " and ifunset, result[0] is None)",
+      "none_without_ifunset": "implies(result[0] is None and not ifunset, result[1] == value)",
       "status_domain": "result[0] is None or result[0] == 0 or result[0] == 1",
       # replace: keys unchanged, exactly the slot of key now holds value
       "replaced": "implies(result[0] == 0, " + UNCHANGED_KEYS + " and len(self._values) == old(len(self._values)) and result[1] == value and " + PRESENT + " and "
@@ -225,3 +226,145 @@ C("_BucketBase.maxKey", cls=LEAF, params={"key": BOUND},
                                  "forall(0, len(self._keys), lambda j: self._keys[j] > to_key(key))"},
           "TypeError": {}},
   modifies=[], props=["C02", "C09"])
+
+# --------------------------------------------------------------------------
+# public leaf API (C01, C09, C13): conversion first, then the proved core
+ANYKEY = "any"
+TKP = "exists(0, old(len(self._keys)), lambda j: old(self._keys[j]) == to_key(key))"
+TKA = "forall(0, old(len(self._keys)), lambda j: old(self._keys[j]) != to_key(key))"
+NOCHANGE_B = {"keys_same": UNCHANGED_KEYS, "values_same": UNCHANGED_VALUES,
+              "flag_same": "changed(self) == old(changed(self))"}
+NOCHANGE_S = {"keys_same": UNCHANGED_KEYS, "flag_same": "changed(self) == old(changed(self))"}
+
+C("Bucket.get", cls="Bucket", params={"key": ANYKEY, "default": ["none", "V"]},
+  requires=dict(WF_BUCKET), returns=["V", "none"],
+  ensures={
+      "hit": "implies(key_ok(key), forall(0, len(self._keys), lambda j: implies(self._keys[j] == to_key(key), result == self._values[j])))",
+      "miss": "implies(not key_ok(key) or " + TKA + ", result is default)",
+  }, modifies=[], props=["C01", "C09", "C13"])
+
+C("Bucket.__getitem__", cls="Bucket", params={"key": ANYKEY},
+  requires=dict(WF_BUCKET), returns="V",
+  ensures={"hit": "exists(0, len(self._keys), lambda j: self._keys[j] == to_key(key) and result == self._values[j])"},
+  raises={"KeyError": {}},      # absent or unconvertible key (C09: lookups report absence)
+  modifies=[], props=["C01", "C09", "C13"])
+
+C("_BucketBase.__contains__", cls=LEAF, params={"key": ANYKEY},
+  requires={"sorted": WF_KEYS}, returns="bool",
+  ensures={"exact": "result == (key_ok(key) and " + TKP + ")"},
+  modifies=[], props=["C01", "C09", "C13"])
+
+C("Bucket.__setitem__", cls="Bucket", params={"key": ANYKEY, "value": "any"},
+  requires=dict(WF_BUCKET), returns="none",
+  ensures={
+      "wf_sorted": WF_KEYS, "wf_paired": "len(self._values) == len(self._keys)",
+      "stored": "exists(0, len(self._keys), lambda p: self._keys[p] == to_key(key) and self._values[p] == to_value(value))",
+      "size": "len(self._keys) == old(len(self._keys)) + (0 if " + TKP + " else 1)",
+  },
+  raises={"TypeError": dict(NOCHANGE_B)},      # C13: rejected before the container is modified
+  modifies=["list:self._keys", "list:self._values", "self._p_changed"],
+  props=["C01", "C09", "C13"])
+
+C("Bucket.__delitem__", cls="Bucket", params={"key": ANYKEY},
+  requires=dict(WF_BUCKET), returns="none",
+  ensures={"wf_sorted": WF_KEYS, "gone": "forall(0, len(self._keys), lambda j: self._keys[j] != to_key(key))",
+           "size": "len(self._keys) == old(len(self._keys)) - 1 and len(self._values) == len(self._keys)"},
+  raises={"KeyError": dict(NOCHANGE_B), "TypeError": dict(NOCHANGE_B)},
+  modifies=["list:self._keys", "list:self._values", "self._p_changed"],
+  props=["C01", "C09"])
+
+C("Bucket.setdefault", cls="Bucket", params={"key": ANYKEY, "value": "any"},
+  requires=dict(WF_BUCKET), returns="V",
+  ensures={
+      "wf_sorted": WF_KEYS, "wf_paired": "len(self._values) == len(self._keys)",
+      "returns_stored": "exists(0, len(self._keys), lambda p: self._keys[p] == to_key(key) and self._values[p] == result)",
+      "kept_if_present": "implies(" + TKP + ", " + UNCHANGED_KEYS + " and " + UNCHANGED_VALUES + ")",
+      "new_if_absent": "implies(" + TKA + ", result == to_value(value) and len(self._keys) == old(len(self._keys)) + 1)",
+  },
+  raises={"TypeError": dict(NOCHANGE_B)},
+  modifies=["list:self._keys", "list:self._values", "self._p_changed"],
+  props=["C01", "C09", "C13"])
+
+C("Bucket.pop", cls="Bucket", params={"key": ANYKEY, "default": ["marker", "V"]},
+  requires=dict(WF_BUCKET), returns="V",
+  ensures={
+      "wf_sorted": WF_KEYS, "wf_paired": "len(self._values) == len(self._keys)",
+      "present_removed": "implies(" + TKP + ", len(self._keys) == old(len(self._keys)) - 1 and "
+                         "forall(0, len(self._keys), lambda j: self._keys[j] != to_key(key)) and "
+                         "exists(0, old(len(self._keys)), lambda p: old(self._keys[p]) == to_key(key) and result == old(self._values[p])))",
+      "absent_default": "implies(" + TKA + ", result is default and " + UNCHANGED_KEYS + " and " + UNCHANGED_VALUES + ")",
+  },
+  raises={"KeyError": dict(NOCHANGE_B, only_without_default="default is _marker", absent=TKA),
+          "TypeError": dict(NOCHANGE_B)},
+  modifies=["list:self._keys", "list:self._values", "self._p_changed"],
+  props=["C01", "C09"])
+
+C("Set.add", cls="Set", params={"key": ANYKEY},
+  requires=dict(WF_SET), returns="bool",
+  ensures={"wf_sorted": WF_KEYS,
+           "member": "exists(0, len(self._keys), lambda p: self._keys[p] == to_key(key))",
+           "result": "result == (" + TKA + ")",
+           "size": "len(self._keys) == old(len(self._keys)) + (1 if result else 0)"},
+  raises={"TypeError": dict(NOCHANGE_S)},
+  modifies=["list:self._keys", "self._p_changed"], props=["C01", "C09", "C13"])
+
+C("Set.remove", cls="Set", params={"key": ANYKEY},
+  requires=dict(WF_SET), returns="none",
+  ensures={"wf_sorted": WF_KEYS, "gone": "forall(0, len(self._keys), lambda j: self._keys[j] != to_key(key))",
+           "size": "len(self._keys) == old(len(self._keys)) - 1"},
+  raises={"KeyError": dict(NOCHANGE_S), "TypeError": dict(NOCHANGE_S)},
+  modifies=["list:self._keys", "self._p_changed"], props=["C01", "C09"])
+
+# ---- structure: split / unlink / clear / len ------------------------------
+SPLIT_AT = "(index if (0 <= index and index < old(len(self._keys))) else old(len(self._keys)) // 2)"
+C("Bucket._split", cls="Bucket", params={"index": "int"},
+  requires=dict(WF_BUCKET), returns="ref:Bucket",
+  ensures={
+      "fresh": "fresh(result) and is_cls(result, 'Bucket') and fresh(result._keys) and fresh(result._values) and result._keys is not result._values",
+      "left_len": "len(self._keys) == " + SPLIT_AT + " and len(self._values) == len(self._keys)",
+      "right_len": "len(result._keys) == old(len(self._keys)) - " + SPLIT_AT + " and len(result._values) == len(result._keys)",
+      "left_same": "forall(0, len(self._keys), lambda j: self._keys[j] == old(self._keys[j]) and self._values[j] == old(self._values[j]))",
+      "right_same": "forall(0, len(result._keys), lambda j: result._keys[j] == old(self._keys[j + " + SPLIT_AT + "]) and result._values[j] == old(self._values[j + " + SPLIT_AT + "]))",
+      "links": "result._next is old(self._next) and self._next is result",
+      "wf_left": WF_KEYS, "wf_right": "sorted_strict(result._keys)",
+      "flagged": "changed(self)",
+      "same_lists": "self._keys is old(self._keys) and self._values is old(self._values)",
+  },
+  modifies=["list:self._keys", "list:self._values", "self._next", "self._p_changed"],
+  ghost={"allocates": True}, props=["C01", "C03", "C04"])
+
+C("Set._split", cls="Set", params={"index": "int"},
+  requires=dict(WF_SET), returns="ref:Set",
+  ensures={
+      "fresh": "fresh(result) and is_cls(result, 'Set') and fresh(result._keys)",
+      "left_len": "len(self._keys) == " + SPLIT_AT,
+      "right_len": "len(result._keys) == old(len(self._keys)) - " + SPLIT_AT,
+      "left_same": "forall(0, len(self._keys), lambda j: self._keys[j] == old(self._keys[j]))",
+      "right_same": "forall(0, len(result._keys), lambda j: result._keys[j] == old(self._keys[j + " + SPLIT_AT + "]))",
+      "links": "result._next is old(self._next) and self._next is result",
+      "wf_left": WF_KEYS, "wf_right": "sorted_strict(result._keys)",
+      "flagged": "changed(self)", "same_list": "self._keys is old(self._keys)",
+  },
+  modifies=["list:self._keys", "self._next", "self._p_changed"],
+  ghost={"allocates": True}, props=["C01", "C03", "C04"])
+
+C("_BucketBase._deleteNextBucket", cls=LEAF, params={},
+  requires={}, returns="none",
+  ensures={"unlinked": "self._next is (old(self._next)._next if old(self._next) is not None else None)",
+           "flagged": "implies(old(self._next) is not None, changed(self))"},
+  modifies=["self._next", "self._p_changed"], props=["C03", "C04"])
+
+C("_BucketBase.clear", cls=LEAF, inline=True)
+
+C("_BucketBase.__len__", cls=LEAF, params={}, requires={}, returns="int",
+  ensures={"len": "result == len(self._keys)"}, modifies=[], props=["C01"])
+
+C("_BucketBase.size", cls=LEAF, params={}, requires={}, returns="int",
+  ensures={"len": "result == len(self._keys)"}, modifies=[], props=["C01", "C03"])
+
+C("Bucket.clear", cls="Bucket", params={}, requires={}, returns="none",
+  ensures={"empty": "len(self._keys) == 0 and len(self._values) == 0 and self._next is None",
+           "fresh_lists": "fresh(self._keys) and fresh(self._values) and self._keys is not self._values",
+           "flagged": "changed(self)"},
+  modifies=["self._keys", "self._values", "self._next", "self._p_changed"],
+  ghost={"allocates": True}, props=["C01", "C04"])
